@@ -794,6 +794,11 @@ class AlgDomain(EventsMixin, Domain):
     rowvar = True if rv is None else (rv.const() if rv.c is not NOCONST
                                       else 'unknown')
     extra = sorted(k for k in kwargs if k != 'rowvar')
+    if isinstance(a, Poly) and a.kind == 'cols' and rowvar in (
+            True, False, 0, 1):
+      # features x samples: the transposed layout with the flag flipped
+      a = a.transpose()
+      rowvar = not rowvar
     if isinstance(a, Poly) and a.kind == 'rows':
       name = self._name_of(a)
       if rowvar in (False, 0) and not extra and len(args) <= 3:
